@@ -46,9 +46,6 @@ pub mod shims_nondet {
 }
 
 // (vstd already declares core::time::Duration as an external type)
-// used only by the vacuity run: every `assert(false)` probe sits under its own arbitrary condition, so that a probe that fails
-// (as it must) does not make the code after it unreachable for the next probe
-pub uninterp spec fn vac_choice(i: int) -> bool;
 pub uninterp spec fn nanos(d: std::time::Duration) -> int;
 #[verifier::external_body]
 pub broadcast proof fn axiom_nanos_nonneg(d: std::time::Duration) ensures #[trigger] nanos(d) >= 0 { }
